@@ -89,19 +89,25 @@ def finalizeProto (o : Nat) (truncTo : Nat) (segments : List (Nat × List β)) (
   rewriteTocProto o tocOff toc footer ++ [.pwrite o 0 header, .fsync o]
 
 /-- open-time recovery (`EmbeddedWal::open` sentinel, `recover_wal` → `apply_records` →
-    `rebuild_indexes` → `record_checkpoint` → `persist_header`), all IN PLACE on the original:
-    sentinel rewrites, replayed payloads from `data_end` on (= over the old index/TOC area),
-    `set_len` back to the old footer offset when the file is longer, index segments, `set_len` up,
-    TOC+footer, header (still the OLD checkpoint), sentinel, header (new checkpoint), fsync -/
+    `rebuild_indexes` → [re-persist the sketch track + `rewrite_toc_footer`] → `record_checkpoint` →
+    `persist_header`), all IN PLACE on the original: sentinel rewrites, replayed payloads from
+    `data_end` on (= over the old index/TOC area), `set_len` back to the old footer offset when the
+    file is longer, index segments, `set_len` up, TOC+footer, header (still the OLD checkpoint),
+    optionally the sketch track and a second TOC+footer behind it, sentinel, header (new checkpoint),
+    fsync -/
 def recoverProto (o : Nat) (sentOff : Nat) (sent : List β) (payloads : List (Nat × List β))
     (truncTo : Option Nat) (segments : List (Nat × List β)) (growTo : Option Nat)
-    (tocOff : Nat) (toc footer : List β) (header1 header2 : List β) : List (Sys β) :=
+    (tocOff : Nat) (toc footer : List β) (header1 : List β)
+    (sketch : List (Nat × List β)) (toc2 : Option (Nat × List β × List β)) (header2 : List β) : List (Sys β) :=
   [.pwrite o sentOff sent, .pwrite o sentOff sent] ++
   payloads.map (fun c => Sys.pwrite o c.1 c.2) ++
   (match truncTo with | some n => [Sys.ftruncate o n] | none => []) ++
   segments.map (fun c => Sys.pwrite o c.1 c.2) ++
   (match growTo with | some n => [Sys.ftruncate o n] | none => []) ++
   rewriteTocProto o tocOff toc footer ++
-  [.pwrite o 0 header1, .pwrite o sentOff sent, .pwrite o 0 header2, .fsync o]
+  [.pwrite o 0 header1] ++
+  sketch.map (fun c => Sys.pwrite o c.1 c.2) ++
+  (match toc2 with | some (off, t, f) => rewriteTocProto o off t f | none => []) ++
+  [.pwrite o sentOff sent, .pwrite o 0 header2, .fsync o]
 
 end Mv.Emit
